@@ -266,8 +266,11 @@ pub fn c03(opts: &Opts, out: &mut Out) {
             tap::start();
             crate::fm::tap_start();
             let r = Proof::verify_batch(&mut ts, &[a.stmt.clone(), b.stmt.clone()], &[pa.to_proof().unwrap(), pb.to_proof().unwrap()], VerifyAction::VerifyOnly);
+            let whole = crate::fm::tap_is_whole_check();
             let res = crate::fm::tap_take().last().cloned().unwrap_or_default();
-            let _ = tap::take();
+            let ws = fmx::weights_of(&tap::take());
+            // factors from the residual while the tapped MSM is the whole check, else from the logged weights
+            let res = if whole || ws.len() != 2 { res } else { let mut f = FP::default(); f.axpy(&(ws[0] * da + ws[1] * db), &FP::basis(gb0)); f };
             (r.is_ok(), res)
         };
         let delta = Scalar::from(5u8);
